@@ -321,6 +321,12 @@ func PkgOf(f *ssa.Function) string {
 			return Rel(nt.Obj().Pkg().Path())
 		}
 	}
+	// bound-method closures and thunks: the package of the method they wrap
+	if f.Synthetic != "" {
+		if o := f.Object(); o != nil && o.Pkg() != nil {
+			return Rel(o.Pkg().Path())
+		}
+	}
 	return ""
 }
 
